@@ -404,7 +404,7 @@ def _config_routes(opt_a, opt_b, fa, fb, pa, pb):
 
 def config_routes(opt_a: int, opt_b: int, fa: int, fb: int, pa: int, pb: int) -> bool:
     """
-    pre: 0 <= opt_a < len(CFG_OPTS)
+    pre: opt_a == PART.get("a", 0)
     pre: opt_a < opt_b < len(CFG_OPTS)
     pre: 0 <= fa <= 2
     pre: 0 <= fb <= 2
@@ -452,7 +452,8 @@ def plan(tier):
                 if tier == "quick" and (names + style + compound) % 2:
                     continue
                 jobs.append(Job("reproducible_multi", {"style": style, "compound": compound, "names": names}, 900 if tier == "quick" else 3000, 60, note="selector driven, three namespaces / files"))
-    jobs.append(Job("config_routes", {}, 900, 60, note="selector driven: pairs of options x file values x command-line flag values (incl. falsy) vs the API route"))
+    for a in range(len(CFG_OPTS) - 1):
+        jobs.append(Job("config_routes", {"a": a}, 900, 60, note="selector driven: pairs of options x file values x command-line flag values (incl. falsy) vs the API route"))
     for style in ([0] if tier == "quick" else [0, 1, 3]):
         jobs.append(Job("transformer_history", {"style": style}, 600, 60, note="selector driven: histories of 3 ResourceTransformer.process calls with / without the on-disk cache"))
     return jobs
